@@ -28,6 +28,7 @@ import (
 	"encoding/hex"
 	"errors"
 	"fmt"
+	"runtime/debug"
 	"strconv"
 	"strings"
 	"sync"
@@ -704,7 +705,7 @@ func vc24Chunks(t *rapid.T, p []byte) [][]byte {
 func vc24Stream(svc *Service, hdr *object.Object, chunks [][]byte, st *session.Object, st2 *sessionv2.Token) (id oid.ID, err error) {
 	defer func() {
 		if r := recover(); r != nil {
-			err = fmt.Errorf("%w: %v", errVC24Panic, r)
+			err = fmt.Errorf("%w: %v\n%s", errVC24Panic, r, vc24ShortStack())
 		}
 	}()
 	stream, err := svc.Put(context.Background())
@@ -725,6 +726,16 @@ func vc24Stream(svc *Service, hdr *object.Object, chunks [][]byte, st *session.O
 		return oid.ID{}, fmt.Errorf("close: %w", err)
 	}
 	return id, nil
+}
+
+func vc24ShortStack() string {
+	var out []string
+	for _, l := range strings.Split(string(debug.Stack()), "\n") {
+		if strings.Contains(l, "/repo/") || strings.Contains(l, "neofs-sdk-go") {
+			out = append(out, strings.TrimSpace(l))
+		}
+	}
+	return strings.Join(out[:min(len(out), 12)], "\n")
 }
 
 // errVC24Panic marks a panic inside the PUT service (always a failure of the check).
@@ -1077,12 +1088,7 @@ func TestVerifC24Sliced(t *testing.T) {
 		rec.Case(mut != "none" || nChildren >= 2, fmt.Sprintf("%s|%s|%d|%t|%d|v%d|%s", cl.name, mut, n, declared, len(chunks), tokVer, role),
 			"cluster:"+cl.name, "mut:"+mut, fmt.Sprintf("children:%d", min(nChildren, 5)), "role:"+role, fmt.Sprintf("token:v%d", tokVer), fmt.Sprintf("faults:%t", faults > 0), fmt.Sprintf("ok:%t", err == nil))
 
-		// A swallowed payload-write error (known class) can only show up when a write
-		// fails: more bytes than declared, or an injected storage failure.
 		fail := func(format string, a ...any) {
-			if (faults > 0 || mut == "stream-longer") && rec.Known("C24:validating-target-swallows-write-error") {
-				return
-			}
 			rt.Fatalf("C24 violation: "+format+fmt.Sprintf("\ncluster=%s len=%d declared=%t mut=%s through=%d token=v%d faults=%d", cl.name, n, declared, mut, through, tokVer, faults), a...)
 		}
 		if errors.Is(err, errVC24Panic) {
